@@ -845,8 +845,10 @@ def _build_edges(phi, reliability, mask=None, wrap_around=True):
         inc = _find_wrap(phi_f[i1], phi_f[i2])
         rel = rel_f[i1] + rel_f[i2]
 
+        # pixel indices and increments stay in an integer tensor: stacked with the float
+        # reliabilities they were rounded to phi's dtype (wrong pairs above 2048 px in float16)
         edges.append(  # ty:ignore[possibly-missing-attribute]
-            torch.stack([i1, i2, rel, inc], dim=1)
+            (torch.stack([i1, i2, inc], dim=1), rel)
         )
 
     if wrap_around:
@@ -856,14 +858,15 @@ def _build_edges(phi, reliability, mask=None, wrap_around=True):
         add_edges(idx[:, :-1].flatten(), idx[:, 1:].flatten())
         add_edges(idx[:-1, :].flatten(), idx[1:, :].flatten())
 
-    edges = torch.cat(edges, dim=0)
-    edges = edges[edges[:, 2].argsort()]
+    rel = torch.cat([r for _, r in edges], dim=0)
+    edges = torch.cat([e for e, _ in edges], dim=0)
+    edges = edges[rel.argsort()]
 
     # return integer tensors only (CPU)
     return (
         edges[:, 0].long(),
         edges[:, 1].long(),
-        edges[:, 3].long(),
+        edges[:, 2].long(),
     )
 
 
